@@ -126,6 +126,132 @@ def run_exe(exe, lines, args=(), env=None, timeout=3600):
     return r
 
 
+def mat_tokens(tokens, i):
+    """parse 'm r c w...' at tokens[i] (result format, no place token); returns (r, c, words, next_i)"""
+    r, c = int(tokens[i + 1]), int(tokens[i + 2])
+    w = (c + 63) // 64
+    return r, c, tokens[i + 3:i + 3 + r * w], i + 3 + r * w
+
+
+def arg_mats(line):
+    """matrix operands of an operation line as 'm r c o words' strings (owned placement), in order; aliases resolved"""
+    t = line.split()
+    out = []
+    i = 2
+    args = []
+    while i < len(t):
+        if t[i] == 'm':
+            r, c = int(t[i + 1]), int(t[i + 2])
+            w = (c + 63) // 64
+            args.append(('m', r, c, t[i + 4:i + 4 + r * w]))
+            i += 4 + r * w
+        elif t[i] == 'p':
+            ln = int(t[i + 1])
+            args.append(('p', t[i + 2:i + 2 + ln]))
+            i += 2 + ln
+        elif t[i].startswith('@'):
+            args.append(args[int(t[i][1:])])
+            i += 1
+        else:
+            args.append(('v', t[i]))
+            i += 1
+    return args
+
+
+def mask_mat(r, c, words):
+    """owned-matrix token string with excess bits cleared"""
+    w = (c + 63) // 64
+    out = []
+    hb = (1 << (c % 64)) - 1 if c % 64 else (1 << 64) - 1
+    for x in range(r):
+        for y in range(w):
+            v = int(words[x * w + y], 16)
+            if y == w - 1:
+                v &= hb
+            out.append('%x' % v)
+    return 'm %d %d o %s' % (r, c, ' '.join(out)) if out else 'm %d %d o' % (r, c)
+
+
+def checker_line(cid, line, impl_main):
+    """second-phase line judging the implementation's (non-unique) output with the Lean checkers"""
+    t = line.split()
+    op = t[1]
+    if not impl_main.startswith('ok'):
+        return None
+    res = impl_main.split()
+    args = arg_mats(line)
+    try:
+        if op in ('echelonize_m4ri', 'echelonize_m4ri_h', 'echelonize_pluq', 'echelonize', 'echelonize_naive', 'gauss_delayed'):
+            if op == 'gauss_delayed' and args[1][1] != '0':
+                return None
+            A0 = args[0]
+            full = args[2][1] if op == 'gauss_delayed' else args[1][1]
+            r = int(res[2])
+            rr, cc, words, _ = mat_tokens(res, 3)
+            return '%s.chk check_echelon %s %s %d %s' % (cid, mask_mat(A0[1], A0[2], A0[3]), mask_mat(rr, cc, words), r, full)
+        if op in ('ple_naive', 'pluq_naive', 'ple', 'pluq', 'ple_russian', 'pluq_russian'):
+            A0 = args[0]
+            r = int(res[2])
+            rr, cc, words, i = mat_tokens(res, 3)
+            lp = int(res[i + 1]); P = res[i + 2:i + 2 + lp]; i += 2 + lp
+            lq = int(res[i + 1]); Q = res[i + 2:i + 2 + lq]
+            kind = 'check_ple' if op.startswith('ple') else 'check_pluq'
+            return '%s.chk %s %s %s p %d %s p %d %s %d' % (cid, kind, mask_mat(A0[1], A0[2], A0[3]), mask_mat(rr, cc, words),
+                                                        lp, ' '.join(P), lq, ' '.join(Q), r)
+        if op in ('solve_left', 'pluq_solve_left'):
+            A0, B0 = args[0], args[1]
+            ret = int(res[2])
+            rr, cc, words, _ = mat_tokens(res, 3)
+            return '%s.chk check_solve %s %s %s %d %s' % (cid, mask_mat(A0[1], A0[2], A0[3]), mask_mat(B0[1], B0[2], B0[3]),
+                                                       mask_mat(rr, cc, words), ret, args[3][1])
+        if op == 'kernel':
+            if res[1] == 'null':
+                return None
+            A0 = args[0]
+            rr, cc, words, _ = mat_tokens(res, 1)
+            return '%s.chk check_kernel %s %s' % (cid, mask_mat(A0[1], A0[2], A0[3]), mask_mat(rr, cc, words))
+    except Exception as e:
+        return '%s.chk bad-checker-input %s' % (cid, type(e).__name__)
+    return None
+
+
+CANON_DROP_MAT = {'echelonize_m4ri', 'echelonize_m4ri_h', 'echelonize_pluq', 'echelonize'}
+
+
+def canon_result(op, line, main):
+    """reduce an implementation result to the canonical observables the model prints for this operation"""
+    t = main.split()
+    if t[:1] != ['ok']:
+        return main
+    try:
+        if op in CANON_DROP_MAT:
+            full = arg_mats(line)[1][1]
+            if full == '0':
+                return 'ok i %s' % t[2]
+            return main
+        if op == 'top_echelonize_m4ri':
+            # the routine returns the number of pivots; the matrix is the RREF
+            return main
+        if op in ('ple', 'pluq', 'ple_russian', 'pluq_russian'):
+            r = int(t[2])
+            rr, cc, words, i = mat_tokens(t, 3)
+            lp = int(t[i + 1]); i += 2 + lp
+            lq = int(t[i + 1]); Q = t[i + 2:i + 2 + lq]
+            if op.startswith('ple'):
+                return 'ok i %d p %d %s' % (r, r, ' '.join(Q[:r])) if r else 'ok i 0 p 0'
+            return 'ok i %d' % r
+        if op in ('solve_left', 'pluq_solve_left'):
+            check = arg_mats(line)[3][1]
+            return 'ok i %s' % (t[2] if check != '0' else '0')
+        if op == 'kernel':
+            if t[1] == 'null':
+                return main
+            return 'ok i %s i %s' % (t[2], t[3])
+    except Exception:
+        return main
+    return main
+
+
 def spec_view(op, main):
     """project an implementation/model result onto what the specification determines"""
     t = main.split()
@@ -148,6 +274,18 @@ def correspond(build, lines, harness_args=(), env=None, canon=None, model_lines=
     tm = time.time() - t0
     himpl = parse_results(hr.stdout)
     hmodel = parse_results(mr.stdout)
+    byid0 = {l.split(' ', 1)[0]: l for l in lines}
+    # second phase: outputs that the specification does not determine uniquely are judged by the Lean checkers
+    chk_lines = []
+    for cid, (main, _) in list(himpl.items()):
+        if cid in byid0:
+            cl = checker_line(cid, byid0[cid], main)
+            if cl:
+                chk_lines.append(cl)
+    hchk = {}
+    if chk_lines:
+        cr = run_exe(MODEL_EXE, chk_lines)
+        hchk = parse_results(cr.stdout)
     spec_viol, stale, diag_bad = [], [], []
     ids = [l.split(' ', 2)[0] for l in lines if l and not l.startswith('#')]
     byid = {l.split(' ', 1)[0]: l for l in lines}
@@ -160,6 +298,16 @@ def correspond(build, lines, harness_args=(), env=None, canon=None, model_lines=
         sp = hmodel.get(cid + '.spec')
         iv = im[0] if im else '<no output>'
         mv = mo[0] if mo else '<no output>'
+        raw_iv = iv
+        iv = canon_result(op, line, iv)
+        ck = hchk.get(cid + '.chk')
+        if ck is not None and ck[0].split()[:1] == ['ok'] and any(x == '0' for x in ck[0].split()[2::2]):
+            spec_viol.append(dict(id=cid, line=line, impl=raw_iv, model=mv, spec='checker: ' + ck[0],
+                                  kind='impl-output-rejected-by-checker'))
+            continue
+        if ck is not None and not ck[0].startswith('ok'):
+            stale.append(dict(id=cid, line=line, impl=raw_iv, model=ck[0], spec=None, kind='checker-failed'))
+            continue
         if canon:
             iv, mv = canon(op, iv), canon(op, mv)
         rec = dict(id=cid, line=line, impl=iv, model=mv, spec=sp[0] if sp else None)
@@ -180,7 +328,7 @@ def correspond(build, lines, harness_args=(), env=None, canon=None, model_lines=
                 diag_bad.append(dict(id=cid, line=line, diag=d, kind='frame'))
             if kv.get('leak', '0') not in ('0', '-'):
                 diag_bad.append(dict(id=cid, line=line, diag=d, kind='leak'))
-    return dict(spec_viol=spec_viol, stale=stale, diag_bad=diag_bad, n=len(ids), nspec=nspec,
+    return dict(spec_viol=spec_viol, stale=stale, diag_bad=diag_bad, n=len(ids), nspec=nspec, nchecked=len(hchk),
                 harness_rc=hr.returncode, harness_stderr=hr.stderr[-4000:], model_rc=mr.returncode,
                 model_stderr=mr.stderr[-2000:], t_harness=th, t_model=tm, impl=himpl, model=hmodel)
 
